@@ -16,6 +16,7 @@ MENU = {
     "M-fsync": (True, lambda l: ("addf", "RA", "n", l, "sync")),
     "M-fasync": (True, lambda l: ("addf", "RA", "n", l, "async")),
     "M-multi": (True, lambda l: ("add", "RAB", "n", l)),
+    "M-falsy": (True, lambda l: ("add", "RAF", "n", l)),
     "N-type": (False, lambda l: ("add", "RB", "n", l)),
     "N-name": (False, lambda l: ("add", "RA", "other", l)),
     "N-ftype": (False, lambda l: ("addf", "RB", "n", l, "sync")),
@@ -95,6 +96,11 @@ class C06(E1Check):
             for gates in itertools.product((False, True), repeat=3):
                 for order in ("wwp", "wpw", "pww"):
                     progs.append({"kind": "two", "seq": list(seq), "gates": list(gates), "order": order, "small": False})
+        for order in ("wp", "pw"):
+            for pubs in (("b", "a"), ("a", "b")):
+                for gates in itertools.product((False, True), repeat=3):
+                    for api in (("method", "shortcut"), ("inject", "method")):
+                        progs.append({"kind": "multi", "order": order, "pubs": list(pubs), "gates": list(gates), "apis": list(api), "small": False})
         for optional_from in ("component-optional", "outer", "service"):
             for seq in (("M-res",), ("N-type",)):
                 for g in (False, True):
@@ -135,6 +141,17 @@ class C06(E1Check):
                 # not remapped: lands under "default"; a later matching publication releases the waiter
                 pub["start"] = [("add", "RA", "n", "late-match")] if False else None
             kids = [w, pub] if p["order"] == "wp" else [pub, w]
+        elif kind == "multi":
+            # one component with two requests for different pairs pending at once; published in the given order
+            w = {"alias": "w", "children": [], "prepare": None,
+                 "start": [("par", [([("gate", "wa")] if p["gates"][0] else []) + [("get", "RA", "n", p["apis"][0], False, "wa")],
+                                    ([("gate", "wb")] if p["gates"][1] else []) + [("get", "RB", "m", p["apis"][1], False, "wb")]])]}
+            steps: list = [("gate", "p")] if p["gates"][2] else []
+            for which in p["pubs"]:
+                steps.append(("add", "RA", "n", "pub-a") if which == "a" else ("add", "RB", "m", "pub-b"))
+                steps.append(("gate", "between")) if which == p["pubs"][0] else None
+            pub = {"alias": "p", "children": [], "prepare": None, "start": [x for x in steps if x]}
+            kids = [w, pub] if p["order"] == "wp" else [pub, w]
         elif kind == "two":
             w1 = waiter("w1", "prepare", p["gates"][0], "method")
             w2 = waiter("w2", "start", p["gates"][1], "inject")
@@ -156,12 +173,14 @@ class C06(E1Check):
         return {"alias": "", "children": kids, "prepare": None, "start": None}
 
     def has_match(self, p: dict) -> bool:
+        if p["kind"] == "multi":
+            return True
         if p["kind"] == "alias":
             return p["where"] == "start"
         return any(MENU[i][0] for i in p["seq"])
 
     def deadlock_ok(self, program: Any) -> bool:
-        return program["kind"] in ("basic", "alias", "two") and not self.has_match(program)
+        return program["kind"] in ("basic", "alias", "two", "multi") and not self.has_match(program)
 
     async def main(self, env: Any, program: dict) -> None:
         from asphalt.core import Context, ResourceNotFound, start_component
@@ -198,47 +217,53 @@ class C06(E1Check):
 
     # ---- oracle --------------------------------------------------------------------------------
     @staticmethod
-    def match_label(ev: tuple) -> str | None:
-        """label the waiter must receive if this publication event matches the wanted pair"""
-        if ev[0] == "added" and ev[4] == "n" and ev[3] in ("RA", "RAB"):
+    def match_label(ev: tuple, want: tuple = WANT) -> str | None:
+        """label the waiter for ``want`` must receive if this publication event matches it"""
+        wt, wn = want
+        covers = {"RA": ("RA", "RAB", "RAF"), "RB": ("RB", "RAB")}[wt]
+        if ev[0] == "added" and ev[5] == "alias-pub":
+            return ev[5] if (ev[2] == "start" and wn == "n" and wt == "RA") else None
+        if ev[0] == "added" and ev[4] == wn and ev[3] in covers:
             return ev[5]
-        if ev[0] == "addedf" and ev[4] == "n" and ev[3] in ("RA", "RAB"):
+        if ev[0] == "addedf" and ev[4] == wn and ev[3] in covers:
             return ev[5] + "#1"
-        if ev[0] == "added" and ev[5] == "alias-pub" and ev[2] == "start":
-            return ev[5]
         return None
 
     def at_quiescence(self, env: Any) -> None:
         if env.data.get("q-failed"):
             return
-        matched = None
-        issued: dict[str, int] = {}
+        issued: dict[str, tuple] = {}
         done: set[str] = set()
+        pubs = []
         for i, ev in enumerate(env.trace):
-            if ev[0] in ("added", "addedf") and matched is None and self.match_label(ev) is not None:
-                matched = i
+            if ev[0] in ("added", "addedf"):
+                pubs.append((i, ev))
             elif ev[0] == "get+" and not ev[5]:
-                issued[ev[1]] = i
+                issued[ev[1]] = (ev[2], ev[3])
             elif ev[0] in ("get-", "get!"):
                 done.add(ev[1])
-        if matched is not None:
-            late = [w for w in issued if w not in done]
-            if late:
+        for w, want in issued.items():
+            if w in done or w in ("outer", "svc"):
+                continue
+            m = next((i for i, ev in pubs if self.match_label(ev, want) is not None), None)
+            if m is not None:
                 env.data["q-failed"] = True
-                env.fail("lost-wakeup", f"a matching publication happened (trace index {matched}) but waiter(s) {late} had not returned at the next quiescent point")
+                env.fail("lost-wakeup", f"a publication matching {want} happened (trace index {m}) but waiter {w} had not returned at the next quiescent point")
+                return
 
     def verdict(self, env: Any, program: Any, outcome: str) -> None:
         super().verdict(env, program, outcome)
         tr = env.trace
         fail = env.fail
         kind = program["kind"]
-        match_idx = None
-        match_lab = None
-        for i, ev in enumerate(tr):
-            if ev[0] in ("added", "addedf"):
-                ml = self.match_label(ev)
-                if ml is not None and match_idx is None:
-                    match_idx, match_lab = i, ml
+        def first_match(want: tuple) -> tuple:
+            for i, ev in enumerate(tr):
+                if ev[0] in ("added", "addedf"):
+                    ml = self.match_label(ev, want)
+                    if ml is not None:
+                        return i, ml
+            return None, None
+
         for ev in tr:
             if ev[0] == "start-exc":
                 fail("start-failed", f"start_component raised {ev[1]}: {ev[2]}")
@@ -247,6 +272,7 @@ class C06(E1Check):
                 who, got, consumed = ev[1], ev[2], ev[3]
                 gp = next(e for e in tr if e[0] == "get+" and e[1] == who)
                 optional = gp[5]
+                match_idx, match_lab = first_match((gp[2], gp[3]))
                 if who in ("outer", "svc") or optional:
                     # never waits
                     if consumed != 0:
@@ -266,6 +292,7 @@ class C06(E1Check):
             elif ev[0] == "get!":
                 who, consumed = ev[1], ev[3]
                 gp = next(e for e in tr if e[0] == "get+" and e[1] == who)
+                match_idx, match_lab = first_match((gp[2], gp[3]))
                 if who in ("outer", "svc"):
                     if consumed != 0:
                         fail("waited", f"{who} consumed {consumed} environment events before raising ResourceNotFound")
@@ -275,8 +302,8 @@ class C06(E1Check):
                 else:
                     fail("false-failure", f"waiter {who} failed with {ev[2]} (matching publication index {match_idx})")
         # completion: with a matching publication every waiter returns and start-up completes
-        if kind in ("basic", "alias", "two"):
-            waiters = {"basic": ["w"], "alias": ["w"], "two": ["w1", "w2"]}[kind]
+        if kind in ("basic", "alias", "two", "multi"):
+            waiters = {"basic": ["w"], "alias": ["w"], "two": ["w1", "w2"], "multi": ["wa", "wb"]}[kind]
             if self.has_match(program):
                 for w in waiters:
                     if not any(ev[0] == "get-" and ev[1] == w for ev in tr):
